@@ -327,7 +327,9 @@ fn configs(tier: Tier) -> Vec<Tl> {
         for per_request in [false, true] {
             let seeds: Vec<u64> = if cancel { vec![1] } else { tier.pick(vec![1, 2], vec![1, 2, 3, 4]) };
             for seed in seeds {
-                v.push(Tl { flag_first: false, cancel, per_request, callers: 2, max_ticks: tier.pick(4, 5), max_drops: 1, seed });
+                // thorough: three callers under the first select! seed
+                let callers = if tier == Tier::Thorough && seed == 1 { 3 } else { 2 };
+                v.push(Tl { flag_first: false, cancel, per_request, callers, max_ticks: tier.pick(4, 6), max_drops: 1, seed });
             }
             // the same with the builder calls in the other order
             v.push(Tl { flag_first: true, cancel, per_request, callers: 2, max_ticks: tier.pick(4, 5), max_drops: 1, seed: 1 });
@@ -359,10 +361,12 @@ fn main() {
     for w in ["timed_out", "result_before_deadline", "two_live_calls_with_different_deadlines", "background_call_still_running_after_timeout", "tie_at_deadline_resolved_as_result", "tie_at_deadline_resolved_as_timeout"] {
         rep.require_witness(w);
     }
-    let depth = tier.pick(10, 13);
-    rep.bounds = json!({"depth": depth, "callers": 2, "timeouts_ms": [20, 30, "Duration::MAX", 0, 9.75], "grid_ms": 10});
+    let depth = tier.pick(10, 15);
+    rep.bounds = json!({"depth": depth, "callers": "2 (thorough: 3 under the first select! seed)", "timeouts_ms": [20, 30, "Duration::MAX", 0, 9.75], "grid_ms": 10});
     for cfg in configs(tier) {
-        let opts = Opts { max_depth: depth, time_cap: Duration::from_secs(tier.pick(30, 600)), ..Opts::default() };
+        // three callers with five arrival variants each: a shallower bound keeps the level complete
+        let d = if cfg.per_request && cfg.callers == 3 { 12 } else { depth };
+        let opts = Opts { max_depth: d, time_cap: Duration::from_secs(tier.pick(30, 600)), state_cap: tier.pick(2_000_000, 8_000_000), ..Opts::default() };
         let ex = svcx::explore(&cfg, &opts, &mut rep);
         if tier == Tier::Thorough && cfg.seed == 1 {
             svcx::validate_abstraction(&cfg, 6, &ex.fingerprints, ex.depth_completed, &mut rep);
